@@ -56,6 +56,8 @@ func totalHangs() int {
 // the watchdog (too many spinning goroutines left behind): such a case says nothing about its input.
 func Skipped(impl string) bool { return strings.Contains(impl, "hang-skipped") }
 
+var guarded int
+
 func setup() {
 	once.Do(func() {
 		Session, _ = sess.New(nil)
@@ -74,6 +76,15 @@ func Guard(f func() string) string { return GuardOp("misc", f) }
 // into canonical outcomes.  op is the operation the hang budget is charged to.
 func GuardOp(op string, f func() string) string {
 	setup()
+	// every other guarded call (the first one - a replayed line - included) runs with the naming handler's and the
+	// session's loggers at debug level: every log line is formatted (output discarded); a panicking log call is a handler panic
+	guarded++
+	lvl := fastlog.LevelInfo
+	if guarded%2 == 1 {
+		lvl = fastlog.LevelDebug
+	}
+	dn.Logger.SetLevel(lvl)
+	packet.Logger.SetLevel(lvl)
 	if HangsBy[op] >= HangBudget || totalHangs() >= TotalHangBudget {
 		// every hung call leaves a spinning goroutine behind; stop feeding this operation
 		return "hang-skipped"
